@@ -11,14 +11,14 @@ namespace PySMT
 
 inductive Val
   | b (v : Bool) | i (v : Int) | r (v : Rat) | s (v : String) | bv (w v : Nat)
-  | aconst (d : Val) | astore (a k v : Val)
+  | aconst (idx : Ty) (d : Val) | astore (a k v : Val)
   | u (sort : String) (k : Nat)
   deriving DecidableEq, Repr, Inhabited
 
 namespace Val
 
 def tag : Val → Nat
-  | b _ => 0 | i _ => 1 | r _ => 2 | s _ => 3 | bv _ _ => 4 | u _ _ => 5 | aconst _ => 6 | astore _ _ _ => 7
+  | b _ => 0 | i _ => 1 | r _ => 2 | s _ => 3 | bv _ _ => 4 | u _ _ => 5 | aconst _ _ => 6 | astore _ _ _ => 7
 
 /-- A total order on values used only to keep array values canonical. -/
 def cmp : Val → Val → Ordering
@@ -28,7 +28,7 @@ def cmp : Val → Val → Ordering
   | s x, s y => compare x y
   | bv w x, bv w' y => (compare w w').then (compare x y)
   | u n x, u n' y => (compare n n').then (compare x y)
-  | aconst x, aconst y => cmp x y
+  | aconst _ x, aconst _ y => cmp x y
   | astore a k v, astore a' k' v' => (cmp a a').then ((cmp k k').then (cmp v v'))
   | x, y => compare x.tag y.tag
 
@@ -36,7 +36,7 @@ def lt (x y : Val) : Bool := cmp x y == .lt
 
 /-- default of an array value -/
 def arrDefault : Val → Val
-  | aconst d => d
+  | aconst _ d => d
   | astore a _ _ => arrDefault a
   | v => v
 
@@ -45,12 +45,18 @@ def arrEntries : Val → List (Val × Val)
   | astore a k v => arrEntries a ++ [(k, v)]
   | _ => []
 
-def mkArr (d : Val) (ents : List (Val × Val)) : Val :=
-  ents.foldl (fun a kv => astore a kv.1 kv.2) (aconst d)
+/-- index sort of an array value -/
+def arrIdx : Val → Ty
+  | aconst t _ => t
+  | astore a _ _ => arrIdx a
+  | _ => .int
+
+def mkArr (idx : Ty) (d : Val) (ents : List (Val × Val)) : Val :=
+  ents.foldl (fun a kv => astore a kv.1 kv.2) (aconst idx d)
 
 def select : Val → Val → Val
   | astore a k v, j => if k = j then v else select a j
-  | aconst d, _ => d
+  | aconst _ d, _ => d
   | v, _ => v
 
 /-- insert `(k,v)` into a key-sorted entry list, replacing an existing binding of `k` -/
@@ -61,12 +67,41 @@ def insertEnt (k v : Val) : List (Val × Val) → List (Val × Val)
     else if lt k k' then (k, v) :: (k', v') :: rest
     else (k', v') :: insertEnt k v rest
 
+/-- all indices of a *small* finite index sort (at most 256 elements), greatest last -/
+def smallDomain : Ty → Option (List Val)
+  | .bool => some [b false, b true]
+  | .bv w => if w ≤ 8 then some ((List.range (2 ^ w)).map (bv w)) else none
+  | _ => none
+
+def lookupEnt (k : Val) (d : Val) : List (Val × Val) → Val
+  | [] => d
+  | (k', v') :: rest => if k = k' then v' else lookupEnt k d rest
+
+/-- Canonical representative of the finitely supported function `(d, ents)`:
+entries sorted by key, none equal to the default; over a small finite index sort the
+default is the value at the greatest index (so that the representation is unique even
+when every index is assigned). -/
+def normArr (idx : Ty) (d : Val) (ents : List (Val × Val)) : Val :=
+  match smallDomain idx with
+  | some dom =>
+    match dom.getLast? with
+    | some m =>
+      let d' := lookupEnt m d ents
+      if d' = d then mkArr idx d ents
+      else mkArr idx d' ((dom.dropLast.map (fun k => (k, lookupEnt k d ents))).filter (fun kv => kv.2 ≠ d'))
+    | none => mkArr idx d ents
+  | none => mkArr idx d ents
+
+/-- constant array in canonical form -/
+def const (idx : Ty) (d : Val) : Val := aconst idx d
+
 /-- canonical store -/
 def store (a k v : Val) : Val :=
   let d := arrDefault a
   let ents := arrEntries a
-  if v = d then mkArr d (ents.filter (fun kv => kv.1 ≠ k))
-  else mkArr d (insertEnt k v ents)
+  let idx := arrIdx a
+  if v = d then normArr idx d (ents.filter (fun kv => kv.1 ≠ k))
+  else normArr idx d (insertEnt k v ents)
 
 def isTrue : Val → Bool | b true => true | _ => false
 
@@ -75,7 +110,7 @@ end Val
 /-- a value of every sort (used for totalisation only; every theorem assumes well-typedness) -/
 def Ty.defaultVal : Ty → Val
   | .bool => .b false | .int => .i 0 | .real => .r 0 | .str => .s ""
-  | .bv w => .bv w 0 | .array _ e => .aconst e.defaultVal | .custom n => .u n 0
+  | .bv w => .bv w 0 | .array i e => .aconst i e.defaultVal | .custom n => .u n 0
 
 /-- `HasSort v t` : the value `v` inhabits sort `t` (decidable, structural on `v`). -/
 def Val.hasSort : Val → Ty → Bool
@@ -85,7 +120,7 @@ def Val.hasSort : Val → Ty → Bool
   | .s _, .str => true
   | .bv w v, .bv w' => w == w' && decide (v < 2 ^ w)
   | .u n _, .custom n' => n == n'
-  | .aconst d, .array _ e => d.hasSort e
+  | .aconst ix d, .array ix' e => ix == ix' && d.hasSort e
   | .astore a k v, .array ix e => a.hasSort (.array ix e) && k.hasSort ix && v.hasSort e
   | _, _ => false
 
